@@ -68,8 +68,17 @@ PodTokens == {Tok(107, X, X, X, p) : p \in {"first", "last", "earlymorning", "la
                                              "afternoon", "noon", "evening", "night"}}
 ModTokens == {Tok(106, X, X, X, m) : m \in Modifiers}
 
+\* <part of day> <end> <joiner> <end>, each end a clock time with or without a written date: the shapes on which
+\* rulePODInterval meets intervals built by ruleTODTOD / ruleDateTimeDateTime / ruleDateInterval
+PRClocks == IF K <= 6 THEN {Tok(128, 8, X, X, "X"), Tok(128, 13, 0, X, "X"), Tok(128, 1, 0, X, "X"), Tok(128, 0, 0, X, "X")}
+            ELSE {Tok(128, 8, X, X, "X"), Tok(128, 8, 0, X, "X"), Tok(128, 13, 0, X, "X"), Tok(128, 11, 30, X, "X"), Tok(128, 1, X, X, "X"),
+                  Tok(128, 12, 0, X, "X"), Tok(128, 0, 0, X, "X"), Tok(128, 23, 59, X, "X")}
+PRDates == IF K <= 6 THEN {Tok(126, 1, 1, 2020, "X"), T0(114)} ELSE {Tok(126, 1, 1, 2020, "X"), Tok(126, 2, 1, 2020, "X"), T0(114)}
+PREnds == {<<c>> : c \in PRClocks} \cup {<<d, c>> : d \in PRDates, c \in PRClocks}
+PodRangeSeqs == {<<p>> \o a \o <<T0(136)>> \o b : p \in PodTokens, a \in PREnds, b \in PREnds}
+
 Alphabet == CASE Fam = "date" -> AlphaDate [] Fam = "clock" -> AlphaClock [] Fam = "dur" -> AlphaDur
-              [] Fam = "pod" -> PodTokens \cup ModTokens
+              [] Fam \in {"pod", "podrange"} -> PodTokens \cup ModTokens
 
 SeqsUpTo(S, n) == UNION {[1..k -> S] : k \in 1..n}
 
@@ -77,6 +86,7 @@ Init ==
   /\ ts \in RefTimes
   /\ IF Fam = "pod"
      THEN \E k \in 0..(K - 1) : \E ms \in [1..k -> ModTokens] : \E p \in PodTokens : prod = ms \o <<p>>
+     ELSE IF Fam = "podrange" THEN prod \in PodRangeSeqs
      ELSE prod \in SeqsUpTo(Alphabet, K)
 
 ElemMatches(pe, v) ==
